@@ -1,8 +1,11 @@
 package main
 
 import (
+	"bytes"
 	"fmt"
 	"go/ast"
+	"go/printer"
+	"go/token"
 	"strings"
 
 	"github.com/zenon-network/go-zenon/chain/nom"
@@ -48,6 +51,16 @@ func init() {
 		})
 		f.raw("-- chain/genesis/shared_tests.go\n")
 		f.strList("checkGenesisOrder", order)
+		// the refusals of the two validators that carry the arithmetic, in source order: for every `return errors.Errorf(...)`
+		// the chain of loops and conditions it sits under (source text). The model's checkAccountBalance / checkTokenTotalSupply
+		// were written for exactly this list; a check that is added, dropped, moved or re-worded shows as drift at build time.
+		for _, fn := range []string{"checkAccountBalance", "CheckTokenTotalSupply"} {
+			d := src.funcDecl("", fn)
+			if d == nil {
+				return nil, fmt.Errorf("%s not found", fn)
+			}
+			f.strList("gn"+strings.ToUpper(fn[:1])+fn[1:]+"Refusals", errorGuards(src.fset, d.Body.List, nil))
+		}
 		// chain/nom/momentum_content.go: the comparison operator of AccountBlockHeaderComparer and whether NewMomentumContent sorts
 		mc, err := parseSrc(repo, "chain/nom/momentum_content.go")
 		if err != nil {
@@ -90,4 +103,41 @@ func init() {
 		f.strList("gnAccountHeaderBytesFields", fields)
 		return f, nil
 	})
+}
+
+// errorGuards lists, in source order, the guard chain ("range <expr>" for a loop, the condition for an if, "!(<cond>)" for
+// its else branch) of every `return errors.Errorf(...)` below stmts.
+func errorGuards(fset *token.FileSet, stmts []ast.Stmt, guards []string) []string {
+	txt := func(n ast.Node) string {
+		var b bytes.Buffer
+		printer.Fprint(&b, fset, n)
+		return strings.Join(strings.Fields(b.String()), " ")
+	}
+	with := func(g string) []string { return append(append([]string{}, guards...), g) }
+	var out []string
+	for _, st := range stmts {
+		switch s := st.(type) {
+		case *ast.ReturnStmt:
+			for _, r := range s.Results {
+				if ce, ok := r.(*ast.CallExpr); ok {
+					if se, ok := ce.Fun.(*ast.SelectorExpr); ok && se.Sel.Name == "Errorf" {
+						out = append(out, strings.Join(guards, " / "))
+					}
+				}
+			}
+		case *ast.BlockStmt:
+			out = append(out, errorGuards(fset, s.List, guards)...)
+		case *ast.RangeStmt:
+			out = append(out, errorGuards(fset, s.Body.List, with("range "+txt(s.X)))...)
+		case *ast.ForStmt:
+			out = append(out, errorGuards(fset, s.Body.List, with("for"))...)
+		case *ast.IfStmt:
+			c := txt(s.Cond)
+			out = append(out, errorGuards(fset, s.Body.List, with(c))...)
+			if s.Else != nil {
+				out = append(out, errorGuards(fset, []ast.Stmt{s.Else}, with("!("+c+")"))...)
+			}
+		}
+	}
+	return out
 }
